@@ -92,6 +92,11 @@ def cases(rng, tier, shard, nshards):
         # complex-valued results of which the *first* entry happens to be exactly real (the rest is genuinely complex)
         yield dict(kind='first_entry_real', cls=['Derivative', 'Jacobian'][j % 2], method=str(rng.choice(['central', 'central', 'forward', 'backward'])),
                    order=int(rng.choice([2, 4])), seed=int(rng.integers(0, 2 ** 31)))
+    for j in range(4 if tier == 'quick' else 30):
+        # functions that hand back their argument, or a view of it (identity, reversal, selection, reshape)
+        yield dict(kind='view_output', which=['identity', 'reversed', 'tail', 'asarray', 'ravel'][(j + shard) % 5],
+                   method=str(rng.choice(['central', 'forward', 'backward', 'complex'])), order=int(rng.choice([2, 4])),
+                   n=int(rng.integers(2, 6)), seed=int(rng.integers(0, 2 ** 31)))
     ncells = sum((D.NMAX[m] + 1) * 8 for m in D.METHODS)
     k = shard
     for i in range(total):
@@ -547,7 +552,42 @@ def run_first_entry_real(case, ctx):
     ctx.nontrivial(('first_entry_real', case['cls'], method, order))
 
 
+def run_view_output(case, ctx):
+    """f returns its argument itself or a view of it (lambda x: x, x[::-1], x[1:], np.asarray(x), x.ravel()): the Jacobian is the
+    identity / a permutation / a selection matrix, and its record is honest like any other."""
+    import numdifftools as nd
+    rng = np.random.default_rng(case['seed'])
+    n = case['n']
+    x = np.round(rng.uniform(-2, 2, size=n), 3)
+    f = dict(identity=lambda z: z, reversed=lambda z: z[::-1], tail=lambda z: z[1:], asarray=lambda z: np.asarray(z),
+             ravel=lambda z: z.ravel())[case['which']]
+    eye = np.eye(n)
+    exact = dict(identity=eye, reversed=eye[::-1], tail=eye[1:], asarray=eye, ravel=eye)[case['which']]
+    try:
+        with np.errstate(all='ignore'):
+            val, info = nd.Jacobian(f, method=case['method'], order=case['order'], full_output=True)(x.copy())
+    except Exception as exc:
+        ctx.reject('raised', observed='%s: %s' % (type(exc).__name__, str(exc)[:150]), view_output=True, method=case['method'])
+        return
+    val = np.asarray(val, dtype=float)
+    est = np.abs(np.asarray(info.error_estimate, dtype=float))
+    ctx.count('view_output_cases')
+    if val.shape != exact.shape or est.shape != val.shape:
+        ctx.reject('record_shape', observed=[list(val.shape), list(est.shape)], expected=list(exact.shape), view_output=True)
+        return
+    err = np.abs(val - exact)
+    ctx.count('view_output_entries_asserted', int(err.size))
+    if np.any(err > 1000.0 * est + 1e-9):
+        idx = np.unravel_index(int(np.argmax(err - 1000.0 * est)), err.shape)
+        ctx.reject('error_exceeds_estimate', observed=float(val[idx]), expected=float(exact[idx]),
+                   detail=dict(est=float(est[idx]), entry=[int(v) for v in idx], function=case['which']), view_output=True, method=case['method'])
+        return
+    ctx.nontrivial(('view_output', case['which'], case['method']))
+
+
 def run_case(case, ctx):
+    if case['kind'] == 'view_output':
+        return run_view_output(case, ctx)
     if case['kind'] == 'first_entry_real':
         return run_first_entry_real(case, ctx)
     if case['kind'] == 'broadcast':
